@@ -14,14 +14,16 @@ package main
 //     3. every connection sends a complete first call and reads its reply: the loop then arms the deadline of the
 //        next ReadCall = frozen clock + 30 s = (moment of step 2) + stallWindow, an absolute real time T.
 //        (The reply's write deadline is the same T: the reply is written milliseconds after step 2.);
-//     4. every connection sends the bytes that precede its stall point; the clock is set back to real time (the skew
-//        lasted a few tens of milliseconds; idle reaping reads the same clock consistently and works in minutes);
+//     4. every connection sends the bytes that precede its stall point; once the complete calls among them have been
+//        answered (their loop iterations arm the same T) the clock is set back to real time (the skew lasted a few
+//        tens of milliseconds; idle reaping reads the same clock consistently and works in minutes);
 //     5. at T + stallMargin the client notes whether the server has closed, sends the rest, half-closes and reads
 //        until the server closes.
 // On the current code every ReadCall error - a timeout included - ends the loop: the connection is closed at T and
 // nothing sent after the stall is answered.
 
 import (
+	"bytes"
 	"encoding/binary"
 	"fmt"
 	"net"
@@ -127,6 +129,22 @@ func stallCase(r *Rand, h handles, kinds []int) caseIn {
 	return in
 }
 
+// decodableCalls: the number of complete decodable calls at the start of the stream, by the implementation's codecs
+func decodableCalls(stream []byte) int {
+	rd := absnfs.NewRecordMarkingReader(bytes.NewReader(stream))
+	n := 0
+	for {
+		data, err := rd.ReadRecord()
+		if err != nil {
+			return n
+		}
+		if _, err := absnfs.DecodeRPCCall(bytes.NewReader(data)); err != nil {
+			return n
+		}
+		n++
+	}
+}
+
 // completeRecords counts the complete records at the start of out.
 func completeRecords(out []byte) int {
 	n := 0
@@ -164,7 +182,13 @@ func (sc *stallClient) snapshot() []byte {
 	return append([]byte{}, sc.out...)
 }
 
-func runStallConns(addr string, ins []connIn) []connObs {
+// runStallConns returns the observations and whether the client-side timing was met: every reply due before the
+// stall was RECEIVED at least 50 ms before T (otherwise a deadline may have been armed, or a reply written, too
+// late for the schedule to mean what it is meant to; the caller then repeats the case on fresh connections)
+func runStallConns(addr string, ins []connIn) ([]connObs, bool) {
+	timingOK := true
+	var tmu sync.Mutex
+	late := func() { tmu.Lock(); timingOK = false; tmu.Unlock() }
 	obs := make([]connObs, len(ins))
 	cl := make([]*stallClient, len(ins))
 	// 1. connect under the real clock
@@ -226,13 +250,15 @@ func runStallConns(addr string, ins []connIn) []connObs {
 				obs[i].WriteErr = true
 				return
 			}
-			limit := time.After(time.Until(T))
+			limit := time.After(time.Until(T.Add(-50 * time.Millisecond)))
 			for completeRecords(sc.snapshot()) < 1 {
 				select {
 				case <-sc.tick:
 				case <-sc.done:
+					late()
 					return
 				case <-limit:
+					late()
 					return
 				}
 			}
@@ -251,7 +277,32 @@ func runStallConns(addr string, ins []connIn) []connObs {
 			}
 		}
 	}
-	time.Sleep(5 * time.Millisecond)
+	// a prefix may hold complete calls: they must be answered, and the loop must have armed the deadline of the ReadCall
+	// that will stall, while the clock is still frozen (how many: the implementation's codecs run in memory - a
+	// matter of timing only, like the patience of the ordinary cases)
+	for i := range ins {
+		if cl[i] == nil {
+			continue
+		}
+		want := decodableCalls(ins[i].Stream)
+		limit := time.After(time.Until(T.Add(-50 * time.Millisecond)))
+	wait:
+		for completeRecords(cl[i].snapshot()) < want {
+			select {
+			case <-cl[i].tick:
+			case <-cl[i].done:
+				late()
+				break wait
+			case <-limit:
+				late()
+				break wait
+			}
+		}
+	}
+	time.Sleep(25 * time.Millisecond)
+	if time.Now().After(T.Add(-20 * time.Millisecond)) {
+		late()
+	}
 	restore()
 	// 5. stall past the deadline, then the rest
 	time.Sleep(time.Until(T.Add(stallMargin)))
@@ -287,5 +338,5 @@ func runStallConns(addr string, ins []connIn) []connObs {
 		}(i)
 	}
 	wg.Wait()
-	return obs
+	return obs, timingOK
 }
